@@ -197,6 +197,7 @@ func init() {
 			names = append(names, n)
 		}
 		sort.Strings(names)
+		rec2 := func(text string) string { return doRead(text, 0, nil, io.EOF, "nil", nil) }
 		rec := func(text string, uni int, sizes []int, final error, preset string, opts *wire.ValidateOpts) {
 			res := doRead(text, uni, sizes, final, preset, opts)
 			o.Case("read:run", res, presetArg(preset), optsArg(opts), finalArg(final), text, sizesArg(uni, sizes))
@@ -320,6 +321,26 @@ func init() {
 				if n%7 == 0 || thorough {
 					rec(mk+"ANYTHING*", 0, nil, io.EOF, "nil", nil)
 					rec(small+mk+"X*", 0, nil, io.EOF, "nil", &wire.ValidateOpts{SkipMandatoryIMAD: true, AllowMissingSenderSupplied: true})
+				}
+			}
+		}
+		// markers wrapped over a line break: the re-split after removing line breaks must see them
+		if small := texts["fedWireMessage-BankTransfer.txt"]; small != "" {
+			base := doRead(small, 0, nil, io.EOF, "nil", nil)
+			segs := splitSegments(small)
+			for _, nl := range []string{"\n", "\r\n"} {
+				for cut := 1; cut <= 5; cut++ {
+					rec(small+"{9999}BOGUS"[:cut]+nl+"{9999}BOGUS"[cut:], 0, nil, io.EOF, "nil", nil)
+					rec("{0123}X*"[:cut]+nl+"{0123}X*"[cut:]+"\n"+small, 0, nil, io.EOF, "nil", nil)
+					rec(small+"{6000}Line|One*"[:cut]+nl+"{6000}Line|One*"[cut:], 0, nil, io.EOF, "nil", nil)
+					// every segment's own marker wrapped: the result must be that of the unwrapped text
+					for i := range segs {
+						w := append([]string{}, segs...)
+						w[i] = segs[i][:cut] + nl + segs[i][cut:]
+						t := strings.Join(w, "\n")
+						r := rec2(t)
+						o.Case("prop:wrap-agree", sameOr(base, r), t)
+					}
 				}
 			}
 		}
